@@ -313,6 +313,52 @@ def reach_table(f, target, is_role_atom, max_atoms=8):
     return atoms, table
 
 
+def must_table(f, target, is_role_atom, max_atoms=8):
+    """(atoms, {assignment: bool}): for every assignment of the role atoms, is `target` passed on EVERY path from the entry
+    to a normal exit when every other condition may go either way?  (the dual of reach_table)"""
+    g = cfg.FnCFG(f)
+    loc = bool_locals(f)
+    conds = {}
+    atoms = []
+    for b in g.blocks.values():
+        if len(b["s"]) == 2 and b.get("cond") is not None and b.get("termk") != "SwitchStmt":
+            c = g.idx.get(b["cond"])
+            if c is not None:
+                e = expand(f, c, loc)
+                conds[b["id"]] = e
+                ls = []
+                leaves(e, ls)
+                for a in ls:
+                    if is_role_atom(a) and a not in atoms:
+                        atoms.append(a)
+    if len(atoms) > max_atoms:
+        raise facts.AnalysisBroken("%s: %d relevant conditions, too many for a table" % (f["id"], len(atoms)))
+    table = {}
+    for vals in itertools.product((False, True), repeat=len(atoms)):
+        env = dict(zip(atoms, vals))
+        seen, stack, escaped = set(), [g.entry], False
+        while stack:
+            b = stack.pop()
+            if b in seen or b == target[0]:
+                continue
+            seen.add(b)
+            if b == g.exit:
+                escaped = True
+                break
+            blk = g.blocks[b]
+            if b in g.throws:
+                continue
+            ss = blk["s"]
+            if b in conds and len(ss) == 2:
+                v = ev3(conds[b], env)
+                nxt = [ss[0]] if v is True else ([ss[1]] if v is False else list(ss))
+            else:
+                nxt = list(ss)
+            stack.extend(x for x in nxt if x is not None)
+        table[vals] = not escaped
+    return atoms, table
+
+
 def bool_locals(f):
     """single-assignment bool locals -> initialiser"""
     from . import bits
